@@ -51,7 +51,8 @@ static bool vars_changed(void) { uint8_t *now = malloc(nvb + 1); w_save_vars(now
 static void build(size_t cap, bool shared, size_t ucap)
 {
         w_begin();
-        struct cat_command *a = w_group(8, false);
+        struct cat_command *a = w_group(9, false);
+        a[8].name = xstr("+O"); a[8].test = h_test; a[8].write = h_write; a[8].only_test = true;      /* test-only: every line with an argument text is a WRITE request and refused, whatever the text looks like */
         a[7].name = xstr("+"); a[7].write = h_write; a[7].implicit_write = true; a[7].disable = true;     /* invisible: must not cut the names that start with it */
         a[0].name = xstr("+W"); a[0].write = h_write; w_vars(&a[0], 0);      /* no variables: var NULL or an empty table */
         a[1].name = xstr("+V"); a[1].write = h_write;
@@ -94,7 +95,7 @@ static void write_line(int target /*0 +W,1 +V,2 D*/, size_t want_len, bool lower
         static uint8_t args[4200], sent[8600]; size_t n = 0, ns = 0;
         if (want_len > 4100) want_len = 4100;
         in_reset();
-        static const char *pre[3] = { "AT+W=", "AT+V=", "ATD" }, *prel[3] = { "at+w=", "at+v=", "atd" };
+        static const char *pre[4] = { "AT+W=", "AT+V=", "ATD", "AT+O=" }, *prel[4] = { "at+w=", "at+v=", "atd", "at+o=" };
         in_puts(lower ? prel[target] : pre[target]);
         if (target == 1) {
                 /* valid variable texts padded to the wanted length with leading zeros: "000..7,\"ab\"" */
@@ -103,6 +104,8 @@ static void write_line(int target /*0 +W,1 +V,2 D*/, size_t want_len, bool lower
                 args[n++] = (uint8_t)('0' + rn(10)); memcpy(args + n, ",\"aB\"", 5); n += 5;
         } else {
                 for (size_t i = 0; i < want_len; i++) { uint8_t ch; do ch = chance(70) ? (uint8_t)(' ' + rn(95)) : (uint8_t)rnd(); while (ch == '\n' || ch == '\r'); args[n++] = ch; }
+                if (target == 3 && n >= 2 && chance(60)) args[n - 1] = '?';      /* "...?" at the end of an argument text is not the '?' of "=?" */
+                if (target == 3 && n == 1 && args[0] == '?') args[0] = 'q';
                 if (n && target == 0 && chance(6)) args[0] = '?';      /* "+W" has neither variables nor a test handler: a leading '?' is an ordinary argument byte for its write handler */
         }
         for (size_t i = 0; i < n; i++) { if (chance(4)) sent[ns++] = '\r'; sent[ns++] = args[i]; }
@@ -116,6 +119,12 @@ static void write_line(int target /*0 +W,1 +V,2 D*/, size_t want_len, bool lower
         long d = (long)n - (long)W.capA;
         if (d >= -2 && d <= 1) { CNT("write_lines_at_capacity_boundary"); nontrivial(hash_u64((uint64_t)(W.capA * 8 + (size_t)(d + 2)), (uint64_t)target)); }
         DSET("capacity_length_cells", hash_u64(W.capA, (uint64_t)(d < -3 ? -3 : d > 3 ? 3 : d) + 10));
+        if (target == 3) {
+                CNT("write_lines_to_a_test_only_command");
+                if (nhc != 0 || nvcb != 0) viol("C06", fits ? "handler-for-refused-request" : "handler-on-overlong-line", "a line with %zu argument bytes to a test-only command (capacity %zu) invoked %d handler(s), first of kind %d", n, W.capA, nhc, hc[0].kind);
+                else if (!(RESULT_CODES == 1 && LAST_CODE == 'E' && PA.units == 1)) viol("C06", fits ? "refused-request-not-error" : "overlong-line-not-error", "a line with %zu argument bytes to a test-only command answered with %ld result codes (last %c), %ld units", n, RESULT_CODES, LAST_CODE ? LAST_CODE : '-', PA.units);
+                return;
+        }
         if (!fits) {
                 CNT("overlong_lines");
                 if (nhc != 0 || nvcb != 0) viol("C06", "handler-on-overlong-line", "%zu argument bytes do not fit capacity %zu but %d handler / %d variable callbacks ran (truncated processing)", n, W.capA, nhc, nvcb);
@@ -270,7 +279,7 @@ void chk_run_case(uint64_t seed, long c, bool is_sweep)
         static const long D[] = { -2, -1, 0, 1 };
         for (int t = 0; t < 3 && !case_failed(); t++)
                 for (int k = 0; k < 4 && !case_failed(); k++) { long L = (long)W.capA + D[k]; if (L < 0) L = 0; if (t == 1 && L < 8) continue; write_line(t, (size_t)L, chance(50)); }
-        for (int r = 0; r < 6 && !case_failed(); r++) { unsigned m = rn(4); size_t L = m == 0 ? rn(4) : m == 1 ? rn((unsigned)W.capA + 3) : m == 2 ? W.capA + rn((unsigned)W.capA * 2 + 2) : W.capA - 1 - rn(W.capA > 3 ? 3 : 1); int t = (int)rn(3); if (t == 1 && L < 8) t = 0; write_line(t, L, chance(50)); }
+        for (int r = 0; r < 6 && !case_failed(); r++) { unsigned m = rn(4); size_t L = m == 0 ? rn(4) : m == 1 ? rn((unsigned)W.capA + 3) : m == 2 ? W.capA + rn((unsigned)W.capA * 2 + 2) : W.capA - 1 - rn(W.capA > 3 ? 3 : 1); int t = (int)rn(3); if (t == 1 && L < 8) t = 0; if (chance(15)) t = 3; write_line(t, L, chance(50)); }
         for (int kind = K_READ; kind <= K_TEST && !case_failed(); kind += 2)
                 for (int fsm = 0; fsm < 2 && !case_failed(); fsm++) { rt_pair(kind, fsm, 3); if (!case_failed()) rt_pair(kind, fsm, 5); }
         if (!case_failed() && chance(30)) for (int fsm = 0; fsm < 2 && !case_failed(); fsm++) renamed_request(fsm);
